@@ -154,7 +154,7 @@ fn default_panic_key(_case: &Value, msg: &str) -> String {
 pub struct CaseCtx<'a> {
     nontrivial: bool,
     outcome: Option<u64>,
-    viol: Vec<(String, String)>,
+    viol: Vec<(String, String, Option<Value>)>,
     pub replaying: bool,
     pub tier: Tier,
     states: u64,
@@ -180,7 +180,17 @@ impl<'a> CaseCtx<'a> {
         self.outcome = Some(s.finish());
     }
     pub fn violation(&mut self, key: impl Into<String>, detail: impl Into<String>) {
-        self.viol.push((key.into(), detail.into()));
+        self.viol.push((key.into(), detail.into(), None));
+    }
+    /// like `violation`, but the replayable case description differs from the description of the
+    /// enclosing case (e.g. a violation that only shows after a history of earlier calls)
+    pub fn violation_with_case(
+        &mut self,
+        key: impl Into<String>,
+        detail: impl Into<String>,
+        case: Value,
+    ) {
+        self.viol.push((key.into(), detail.into(), Some(case)));
     }
     pub fn has_violation(&self) -> bool {
         !self.viol.is_empty()
@@ -291,8 +301,11 @@ impl Ctx {
             let msg = take_panic_message();
             let v = rendered.get_or_insert_with(&desc).clone();
             let key = (self.panic_key)(&v, &msg);
-            cc.viol
-                .push((format!("{}/{}", self.prop, key), format!("panic: {}", msg)));
+            cc.viol.push((
+                format!("{}/{}", self.prop, key),
+                format!("panic: {}", msg),
+                None,
+            ));
         }
         if cc.nontrivial {
             self.res.nontrivial += 1;
@@ -317,13 +330,13 @@ impl Ctx {
         }
         if !cc.viol.is_empty() {
             let v = rendered.get_or_insert_with(&desc).clone();
-            for (key, detail) in cc.viol.drain(..) {
+            for (key, detail, own_case) in cc.viol.drain(..) {
                 let b = self.res.violations.entry(key.clone()).or_default();
                 b.count += 1;
                 if b.examples.len() < EXAMPLES_PER_KEY {
                     b.examples.push(Violation {
                         key,
-                        case: v.clone(),
+                        case: own_case.unwrap_or_else(|| v.clone()),
                         detail,
                     });
                 }
